@@ -34,3 +34,4 @@ def run(prog, rep):
     _ru.run_scale_positions(prog, rep)
     from ..rules import r_flow as _rfa
     _rfa.run_aligned(prog, rep)
+    _ru.run_no_static_state(prog, rep)
